@@ -167,6 +167,13 @@ def _cr_corr(env: Env, out: Outcome, n: int) -> None:
                 ok = False
                 break
         live = st.workers["s01"].collected_events.get("default", [])
+        from collections import Counter as _C
+        have, need = _C(ET.TY_ID[type(e)] for e in live), _C(expected)
+        if ok and all(have[t] >= need[t] for t in need):
+            # a complete set sits in the buffer and was never handed to the step: those events are as good as lost
+            out.violations.append(Violation("C09/full_set_stuck_in_buffer",
+                                            f"expected {expected}, arrivals {[ET.TY_ID[type(e)] for e in arrivals]}: the buffer ends as {[ET.TY_ID[type(e)] for e in live]}, which holds a full set that was never returned",
+                                            {"direct_cr": {"expected": expected, "arrivals": [ET.TY_ID[type(e)] for e in arrivals]}}))
         res = "B %s R %s D %s" % (enc.lst([enc.ev(e) for e in live]), enc.lst([enc.lst([enc.ev(e) for e in l]) for l in returned]),
                                   enc.lst([enc.ev(e) for e in dropped])) if ok else "collect-raised-or-not-single-flight"
         ops.append("CR %s %s" % (enc.lst([str(t) for t in expected]), enc.lst([enc.ev(e) for e in arrivals])))
